@@ -451,10 +451,11 @@ Definition table_out (share : Z -> Z -> Z -> Z) (on : bool) (f : formatter) (s :
     end
   | Ok x =>
     (* without any '<' the formatter is left as it was; otherwise (unbalanced markup leaves styles open) the raw layer,
-       which computes the same table here, says what the formatter is afterwards *)
+       which computes the same table here (checked: else the flag is off, which no implementation run agrees with unless its
+       second render differs too), says what the formatter is afterwards *)
     let same := if existsb has_lt (header ++ concat rows)
                 then match render_table_r share on f s n header rows W ind with
-                     | Ok y => second_same share on f (fst y) s n header rows W ind (snd x)
+                     | Ok y => str_eqb (snd (snd y)) (snd x) && second_same share on f (fst y) s n header rows W ind (snd x)
                      | Err _ => false
                      end
                 else true in
